@@ -17,6 +17,7 @@ package main
 import (
 	"context"
 	"fmt"
+	"sync/atomic"
 	"time"
 
 	"verif/internal/drive"
@@ -66,6 +67,7 @@ func main() {
 	nGc := run.N(50, 1300)
 	nBi := run.N(40, 900)
 
+	transientCases = run.N(6, 120)
 	setReplayMode(false, "sync")
 	checkpointMoves(run, nCp)
 	gcCases(run, nGc)
@@ -97,12 +99,12 @@ func checkpointMoves(run *harness.Run, n int) {
 		l := genLayout(r, o, time.Now().UnixNano())
 		newKey := clusterStyleName(r)
 		for rep := 0; rep < reps; rep++ {
-			oneMove(run, key, kind, rep, l, newKey)
+			oneMove(run, key, kind, rep, l, newKey, i/len(kinds) < transientCases || run.Replaying())
 		}
 	})
 }
 
-func oneMove(run *harness.Run, key, kind string, rep int, l *layout, newKey string) {
+func oneMove(run *harness.Run, key, kind string, rep int, l *layout, newKey string, transient bool) {
 	s0 := l.build()
 	oldCfg := startCfg{ID1: l.Old, ID2: l.Old2}
 	newCfg := oldCfg
@@ -171,8 +173,15 @@ func oneMove(run *harness.Run, key, kind string, rep int, l *layout, newKey stri
 	m := findMarks(lg, newCfg.ID1, false)
 	cc := &caseCtx{Key: key, Kind: kind, Rep: rep, Layout: l.class(p0), Desc: l.describe(), OldCfg: oldCfg, NewCfg: newCfg, P0: p0, SrcNew: srcNew}
 	sweepOp(run, cc, lg, m)
+	if kind == opRekeySetRun && rep == 0 && transient {
+		transientSetRunId(run, cc, s0, srcOld, l.New, lg, m)
+	}
 	sampleOnce(run, cc, lg)
 }
+
+// number of rekey-setrunid cases that also get the transient-error sweep (each step costs one
+// retry pause of the tool, ~4 s, steps run concurrently)
+var transientCases int
 
 var sampled = map[string]bool{}
 var sampledMu = make(chan struct{}, 1)
@@ -330,5 +339,77 @@ func gcNewestSurvives(run *harness.Run, cc *caseCtx, j *gcJob) {
 				fmt.Sprintf("GC removed every entry with the largest offset (%d) of id %s… which the source still reports", best, short(id)),
 				map[string]any{"rep": j.rep, "initial_state": cc.Desc, "requests": reqDump(j.lg.Reqs), "after": bookDump(post), "threshold": j.stale.String(), "direct_calls": j.direct})
 		}
+	}
+}
+
+// ---------------------------------------------------------------------------------------
+// re-key inside a running process, one step answered with an error
+// ---------------------------------------------------------------------------------------
+
+// transientSetRunId: RedisOutput.SetRunId retries its bookkeeping when a step fails. For every
+// request k of the uninterrupted operation the same operation is run again from the same
+// initial state, the k-th request is answered with an error once (the step did not happen),
+// the tool retries by itself, and the next start must still find the position. The stop
+// point is the failed step; what follows it is the tool's own continuation.
+func transientSetRunId(run *harness.Run, cc *caseCtx, s0 []fakeredis.DB, srcOld *fakeredis.Server, newID string, lg *opLog, m marks) {
+	done := make(chan struct{}, lg.N)
+	for k := int64(1); k <= lg.N; k++ {
+		go func(k int64) {
+			defer func() { done <- struct{}{} }()
+			t := newTarget(s0)
+			defer t.Close()
+			f := nextStart(srcOld, t.Addr(), cc.OldCfg)
+			if f.Err != "" || f.Out == nil {
+				run.Inconclusive("%s: start of the running process failed (transient sweep): %s", cc.Key, f.Err)
+				return
+			}
+			seq0 := t.Seq()
+			var fired atomic.Bool
+			var failed string
+			t.SetHooks(nil, func(q *fakeredis.Req) (fakeredis.Reply, bool) {
+				if q.Seq-seq0 == k && fired.CompareAndSwap(false, true) {
+					failed = q.Cmd
+					return fakeredis.Err("ERR injected transient failure"), true
+				}
+				return nil, false
+			}, nil)
+			opErr := f.Out.SetRunId(context.Background(), newID)
+			t.SetHooks(nil, nil, nil)
+			if !fired.Load() {
+				run.Count("transient_step_not_reached", 1)
+				return
+			}
+			after := t.Snapshot()
+			reqs := capture(cc.Kind, s0, t, seq0).Reqs
+			tn := newTarget(after)
+			g := nextStart(cc.SrcNew, tn.Addr(), cc.NewCfg)
+			tn.Close()
+			run.Eval(1)
+			run.Count("transient_error_steps_run", 1)
+			clause, outcome := judge(cc.P0, g)
+			cls := m.class(k-1, lg.N)
+			run.Distinct(fmt.Sprintf("%s|transient|%s|%s|%s|%s", cc.Kind, cc.Layout, cls, failed, outcome))
+			run.Seen("outcomes", cc.Kind+"/transient|"+outcome)
+			if clause == "" {
+				return
+			}
+			if clause == "next-start-refused" {
+				run.Count("next_start_refusals", 1)
+				return
+			}
+			sig := fmt.Sprintf("%s|%s|step-answered-with-error-then-retried|%s", cc.Kind, clause, cls)
+			errs := "<nil>"
+			if opErr != nil {
+				errs = opErr.Error()
+			}
+			run.Violation(sig, cc.Key, fmt.Sprintf("%s: request %d of %d (%s, %s) was answered with an error once, SetRunId (with its own retries) returned %s; "+
+				"the next start with the new configuration finds %s; before the operation a start found %s", cc.Kind, k, lg.N, failed, cls, errs, g, cc.P0),
+				map[string]any{"rep": cc.Rep, "layout_class": cc.Layout, "initial_state": cc.Desc, "initial_bookkeeping": bookDump(s0),
+					"old_config": cc.OldCfg, "new_config": cc.NewCfg, "before": cc.P0.String(), "after": g.String(), "failed_request": k,
+					"requests_of_the_uninterrupted_operation": reqDump(lg.Reqs), "requests_with_the_failed_step": reqDump(reqs), "state_after": bookDump(after)})
+		}(k)
+	}
+	for k := int64(1); k <= lg.N; k++ {
+		<-done
 	}
 }
